@@ -206,6 +206,31 @@ CHECKS = {
             "observed, not modelled.",
             "TLA+ spec + TLC exhaustive crash-point model, history generation, replay across real processes",
             "DESIGN.md §3 C18"),
+    "C01": ("exploration",
+            "ConnLife.tla models the life cycle of a connection in the server (open, input, confined panic, peer gone, idle expiry, return, "
+            "resources) with NO action that ends the process; TLC checks ProcessSurvives (and the C09 properties) over all interleavings of "
+            "two connections and requires the unrecovered-panic deviation to violate it; MC_Dialogue generates dialogue shapes (canonical "
+            "prefix, tokens of the service's grammar, truncation, repetition, raw byte classes, ending, segmentation, 1..3 concurrent "
+            "copies); for each of the 24 director-less services a core set (every grammar token and raw class after the greeting and after "
+            "the canonical dialogue) plus seeded shapes, 400-datagram concurrent bursts for the datagram services, and malformed ssh "
+            "channel requests through a real ssh client are executed against ONE real server in a crash-isolated child; the child dying, a "
+            "fresh echo connection not being served, or the heap growing while idle are violations; a death is attributed by re-running the "
+            "scenarios in flight alone.",
+            "Exploration, not proof: inputs outside grammar+mutators are not tried; memory growth is a thresholded measurement; recovered "
+            "panics are allowed and only counted.",
+            "TLA+ spec (invariant + deviations) + TLC-generated dialogue shapes, model-based exploration of the real server in a child process",
+            "DESIGN.md §3 C01"),
+    "C09": ("exploration",
+            "Same ConnLife.tla: ReleasedWhenQuiescent (invariant) and ReturnsAfterPeerGone (liveness under weak fairness, checked by TLC "
+            "without state constraint), with the three deviations found in the code (helper never exits, listener never closed, datagram "
+            "connection never reports end of input) each violating one of them; the C01 scenario set, cut at every protocol stage and ending "
+            "in close, half-close, a single datagram or silence, runs against the real server in a child; after every peer is gone and the "
+            "30 s idle timeout has passed the process must hold the same honeytrap goroutines (by creation site) and descriptors as before "
+            "the first connection, no handler may still be inside handle(), and the idle process must not burn CPU.",
+            "Thresholds: 33 s after the last scenario, 400 ms CPU per idle second, 2 descriptors of slack; leaks are attributed by goroutine "
+            "creation site, not by scenario.",
+            "TLA+ spec (safety + liveness + deviations), exploration of the real server with runtime snapshots against a baseline",
+            "DESIGN.md §3 C09"),
 }
 
 NOT_YET = "check not built yet in this session (see DESIGN.md §10 for the order of construction)"
